@@ -212,17 +212,18 @@ def np_st(draw, names, arms, prob_ok=True, defaults_ok=False, metrics=None):
 
 @st.composite
 def prob_list_st(draw, n):
-    """Probabilities in multiples of 1/8 summing to exactly 1.0, zeros allowed."""
+    """Probabilities in multiples of 1/8 (1/1024 for long lists) summing to exactly 1.0, zeros allowed."""
     if n == 1:
         return [1.0]
-    if draw(st.integers(0, 3)) == 0:
+    if n <= 9 and draw(st.integers(0, 3)) == 0:
         # probabilities as users type them: rounded to six decimals, summing to 1 only up to ~1e-6 (the policy
-        # validation accepts sums within 1e-5 of 1)
+        # validation accepts sums within 1e-5 of 1; with more entries the rounding errors would add up beyond that)
         w = draw(st.lists(st.integers(1, 9), min_size=n, max_size=n))
         return [round(x / float(sum(w)), 6) for x in w]
-    cuts = sorted(draw(st.lists(st.integers(0, 8), min_size=n - 1, max_size=n - 1)))
-    parts = [b - a for a, b in zip([0] + cuts, cuts + [8])]
-    return [p / 8.0 for p in parts]
+    base = 8 if n <= 8 else 1024
+    cuts = sorted(draw(st.lists(st.integers(0, base), min_size=n - 1, max_size=n - 1)))
+    parts = [b - a for a, b in zip([0] + cuts, cuts + [base])]
+    return [p / float(base) for p in parts]
 
 
 ALL_LP = ["EpsilonGreedy", "UCB1", "Softmax", "Popularity", "ThompsonSampling", "Random",
